@@ -254,8 +254,7 @@ def resolver_contracts(it, loc):
         f'[C01:iter-progress] res matches Ok(Some(_)) ==> {F}.inp().len < {O}.inp().len',
         f'[C01:iter-none-final][C08:end-stops] res matches Ok(None) ==> {F}.inp().len == 0',
         f'[C01:frame] {F}.same_list({O}) && {F}.inp().len <= {O}.inp().len'],
-        loops={0: f'invariant self.same_list({O}), self.inp().len <= {O}.inp().len, valid_address_size(self.size()),\n decreases self.inp().len'},
-        canary=True)
+        loops={0: f'invariant self.same_list({O}), self.inp().len <= {O}.inp().len, valid_address_size(self.size()),\n decreases self.inp().len'})
 
 
 def table_lookup(sec, esz, val, var, tags, plus_base=False):
@@ -267,6 +266,8 @@ def table_lookup(sec, esz, val, var, tags, plus_base=False):
 
 def closure_spec(it, open_anchor, body, rty, ens):
     """give the closure `|x| <body>` a postcondition (inserted text only: `-> (o: T) ensures .. {` and `}`)"""
+    if open_anchor + body not in it.text:
+        return      # the closure is gone (e.g. after the checked-arithmetic fix): nothing to annotate
     it.insert_after(open_anchor, f'-> (o: {rty}) ensures {ens} {{ ')
     it.insert_after(open_anchor + INS_O + f'-> (o: {rty}) ensures {ens} {{ ' + INS_C + body, ' }')
 
@@ -285,7 +286,22 @@ ITER_GHOST = '''    pub closed spec fn inp(&self) -> RView { self.input.rv() }
     pub closed spec fn coded(&self) -> bool { self.format matches %s }'''
 
 
+def widen_reader_address(ctx, sk):
+    """R-VIS (logged): `pub(crate) trait ReaderAddress` -> `pub trait ReaderAddress`.
+    Verus 0.2026.09 panics (vir/sst_to_air.rs: "no entry found for key") on a call of a default method of a pub(crate)
+    trait through the concrete type from another module (`u64::min_tombstone(..)` in convert_raw).  Visibility widening
+    only; should move into core.py (`rat.custom('R-VIS', ..)` before `.clean()`), then this function becomes a no-op."""
+    old, new = 'pub(crate) trait ReaderAddress', 'pub trait ReaderAddress'
+    for it, _label, _own in sk.mods['read::reader']['chunks']:
+        if isinstance(it, Item) and it.label == 'ReaderAddress' and old in it.text:
+            it.text = it.text.replace(old, new, 1)
+            it.base = it.base.replace(old, new, 1)
+            ctx.custom.append(('R-VIS', it._where(''), old, new))
+            ctx.count('R-VIS')
+
+
 def populate(ctx, sk):
+    widen_reader_address(ctx, sk)
     rng = Source('read/rnglists.rs', ctx)
     loc = Source('read/loclists.rs', ctx)
     op = Source('read/op.rs', ctx)
@@ -300,7 +316,7 @@ def populate(ctx, sk):
     # ---- read::addr  (address table: DW_FORM_addrx, DW_RLE_*x, DW_LLE_*x, DW_OP_addrx)
     adr = Source('read/addr.rs', ctx)
     sk.mods['read']['uses'] += '\npub use self::addr::*;\npub use self::str::*;'
-    sk.module('read::addr', """use crate::common::{DebugAddrBase, DebugAddrIndex, DebugAddrOffset, Encoding};
+    sk.module('read::addr', """use crate::common::{DebugAddrBase, DebugAddrIndex, DebugAddrOffset, Encoding, Format};
 use crate::read::{Error, Reader, ReaderOffset, Result};
 use crate::read::reader_clone;
 use crate::vspec::*;""")
@@ -315,6 +331,59 @@ use crate::vspec::*;""")
     dai.splice('get_address', ret='res', ensures=table_lookup('self.sec()', 'address_size as nat', 'a as nat', 'a', ['C08:indexed-address', 'C17:indexed-address'])
                + ['[C08:indexed-address-size] !valid_address_size(address_size) ==> res is Err'])
     sk.add(A, dai)
+
+    # .debug_addr header / entry iterators (C01 iterator protocol, C17 section plumbing)
+    sk.add(A, adr.item(r'^pub struct AddrHeaderIter<').clean(rejrec=['R']))
+    sk.add(A, adr.item(r'^pub struct AddrHeader<R, Offset').clean(rejrec=['R', 'Offset']))
+    sk.add(A, adr.item(r'^pub struct AddrEntryIter<').clean(rejrec=['R']))
+    ahp = adr.item(r'^impl<R, Offset> AddrHeader<R, Offset>', label='AddrHeader')
+    ahp.keep_only(['parse', 'offset', 'length', 'encoding'])
+    ahp.clean()
+    ahp.own(['C01', 'C17'])
+    ahp.insert_members('    pub closed spec fn ents(&self) -> RView { self.entries.rv() }\n    pub closed spec fn enc(&self) -> Encoding { self.encoding }\n'
+                       '    pub closed spec fn off(&self) -> DebugAddrOffset<Offset> { self.offset }\n    pub closed spec fn len(&self) -> Offset { self.length }')
+    # DWARF 5 section 7.27: unit_length, version (2) == 5, address_size (1), segment_selector_size (1) == 0, then the
+    # addresses; gimli additionally skips padding up to a multiple of the address size (documented in the code)
+    ahp.splice('parse', ret='res', ensures=[
+        '[C17:addr-header] res matches Ok(h) ==> ({ let b0 = old(input).rv(); let w = b0.u(0, 4); let il = if w == 0xffff_ffff { 12int } else { 4int }; '
+        'let ul = if w == 0xffff_ffff { b0.u(4, 8) } else { w }; let s = b0.at(il + 2); let hl = il + 4; let pad = if hl % (s as int) == 0 { 0int } else { s as int - hl % (s as int) }; '
+        'b0.u(il, 2) == 5 && valid_address_size(s) && b0.at(il + 3) == 0 && h.enc().version == 5 && h.enc().address_size == s '
+        '&& h.enc().format == (if w == 0xffff_ffff { Format::Dwarf64 } else { Format::Dwarf32 }) && h.off() == offset && h.len().as_nat() == ul '
+        '&& 4 + pad <= ul && window(b0, h.ents(), (hl + pad) as nat, (ul - 4 - pad) as nat) && adv(b0, final(input).rv(), (il + ul) as nat) })',
+        '[C01:address-size-validated] res matches Ok(h) ==> valid_address_size(h.enc().address_size)',
+        '[C01:frame] within(old(input).rv(), final(input).rv())',
+        '[C01:progress] res is Ok ==> final(input).rv().len < old(input).rv().len'])
+    ahp.splice('offset', ret='res', ensures=['res == self.off()'])
+    ahp.splice('length', ret='res', ensures=['res == self.len()'])
+    ahp.splice('encoding', ret='res', ensures=['res == self.enc()'])
+    sk.add(A, ahp)
+    ahi = adr.item(r'^impl<R: Reader> AddrHeaderIter<R>', label='AddrHeaderIter').clean()
+    ahi.own(['C01', 'C17'])
+    ahi.insert_members('    pub closed spec fn inp(&self) -> RView { self.input.rv() }\n    pub closed spec fn off(&self) -> nat { self.offset.0 as nat }')
+    # the running section offset cannot overflow when the iterator was started by DebugAddr::headers (offset 0 + whole section)
+    ahi.splice('next', ret='res', requires=['[C17:addr-headers-offset-inv] old(self).off() + old(self).inp().len <= usize::MAX'], ensures=[
+        '[C17:addr-headers-offset] res matches Ok(Some(h)) ==> h.off().0 as nat == old(self).off() && final(self).off() == old(self).off() + (old(self).inp().len - final(self).inp().len)',
+        '[C17:addr-headers-offset-inv] final(self).off() + final(self).inp().len <= usize::MAX',
+        '[C01:iter-empty] old(self).inp().len == 0 ==> res matches Ok(None)',
+        '[C01:iter-err-empties] res is Err ==> final(self).inp().len == 0',
+        '[C01:iter-progress] res matches Ok(Some(_)) ==> final(self).inp().len < old(self).inp().len',
+        '[C01:iter-none-final] res matches Ok(None) ==> final(self).inp().len == 0',
+        '[C01:frame] final(self).inp().root == old(self).inp().root && final(self).inp().be == old(self).inp().be && final(self).inp().len <= old(self).inp().len'],
+        canary=True)
+    sk.add(A, ahi)
+    aei = adr.item(r'^impl<R: Reader> AddrEntryIter<R>', label='AddrEntryIter').clean()
+    aei.own(['C01', 'C17'])
+    aei.insert_members('    pub closed spec fn inp(&self) -> RView { self.input.rv() }\n    pub closed spec fn size(&self) -> u8 { self.encoding.address_size }')
+    aei.splice('next', ret='res', ensures=[
+        '[C17:addr-entries] res matches Ok(Some(a)) ==> valid_address_size(old(self).size()) && a as nat == old(self).inp().u(0, old(self).size() as int) '
+        '&& adv(old(self).inp(), final(self).inp(), old(self).size() as nat)',
+        '[C01:iter-empty] old(self).inp().len == 0 ==> res matches Ok(None)',
+        '[C01:iter-err-empties] res is Err ==> final(self).inp().len == 0',
+        '[C01:iter-progress] res matches Ok(Some(_)) ==> final(self).inp().len < old(self).inp().len',
+        '[C01:iter-none-final] res matches Ok(None) ==> final(self).inp().len == 0',
+        'final(self).size() == old(self).size()',
+        '[C01:frame] final(self).inp().root == old(self).inp().root && final(self).inp().be == old(self).inp().be && final(self).inp().len <= old(self).inp().len'])
+    sk.add(A, aei)
 
     # ---- read::str  (string offsets table: DW_FORM_strx)
     st = Source('read/str.rs', ctx)
